@@ -97,8 +97,10 @@ def main():
     with Pool(int(os.environ.get("BENIGN_JOBS", "12"))) as pool:
         res = pool.map(one, [(i, base) for i in ids], chunksize=1)
     bad = 0
+    stale = 0
     for (bid, lines, err) in res:
         if err:
+            stale += 1
             print("%-14s %s" % (bid, err))
         elif lines:
             bad += 1
@@ -106,7 +108,7 @@ def main():
             print("\n".join(lines))
         else:
             print("%-14s silent" % bid)
-    print("benign refactorings with a changed verdict: %d of %d" % (bad, len(ids)))
+    print("benign refactorings with a changed verdict: %d of %d that apply (%d no longer apply to the current tree)" % (bad, len(ids) - stale, stale))
     return 1 if bad else 0
 
 
